@@ -223,6 +223,16 @@ impl JobManager {
             } else if matches!(self.jobs[i].state, JobState::Done) {
                 // TODO(jobs): This is a workaround to remove jobs that are done but for which we
                 // don't know what happened.
+                #[cfg(brush_verif)]
+                #[allow(clippy::cast_possible_wrap)]
+                crate::verif::event(
+                    "job_remove",
+                    &[
+                        ("mgr", crate::verif::i(self.verif_id.0)),
+                        ("id", self.jobs[i].id as i64),
+                        ("tok", crate::verif::i(self.jobs[i].verif_tok)),
+                    ],
+                );
                 results.push((self.jobs.remove(i), Ok(ExecutionResult::success())));
             } else {
                 i += 1;
